@@ -205,8 +205,10 @@ def _axis(p, key="axis"):
 
 # fn(mod, p, *operands); mod is numpy or numpoly; "method" spellings use operand methods
 MOVES = {
-    "reshape": lambda m, p, a: m.reshape(a, tuple(p["shape"]) if isinstance(p["shape"], list) else p["shape"]),
-    "reshape_method": lambda m, p, a: a.reshape(tuple(p["shape"]) if isinstance(p["shape"], list) else p["shape"]),
+    "reshape": lambda m, p, a: m.reshape(a, tuple(p["shape"]) if isinstance(p["shape"], list) else p["shape"],
+                                         **({"order": p["order"]} if "order" in p else {})),
+    "reshape_method": lambda m, p, a: a.reshape(tuple(p["shape"]) if isinstance(p["shape"], list) else p["shape"],
+                                                **({"order": p["order"]} if "order" in p else {})),
     "transpose": lambda m, p, a: m.transpose(a, _opt(p, "axes")),
     "transpose_method": lambda m, p, a: a.transpose(*([] if _opt(p, "axes") is None else [p["axes"]])),
     "T": lambda m, p, a: a.T,
